@@ -9,3 +9,4 @@ from . import script  # noqa
 from . import p2p  # noqa
 from . import ec  # noqa
 from . import der  # noqa
+from . import bip340  # noqa
